@@ -208,8 +208,8 @@ theorem nz_cancelRequest (s : St) (id : Nat) : NzS s (cancelRequest s id).1 := b
   · exact NzS.refl s
   · exact (((nz_abortExec _ _).trans (nz_removeTimer _ _))).pre rfl rfl rfl
 
-theorem nz_rearm {s s2 : St} {now late : Nat} {en : SEntry} (hr : rearm s now late en = some s2) : NzS s s2 := by
-  rcases rearm_cases s now late en with ⟨_, he⟩ | ⟨q, key, w, _, he⟩ <;> rw [he] at hr <;> cases hr
+theorem nz_rearm {s s2 : St} {now : Nat} {en : SEntry} (hr : rearm s now en = some s2) : NzS s s2 := by
+  rcases rearm_cases s now en with ⟨_, he⟩ | ⟨q, key, w, _, he⟩ <;> rw [he] at hr <;> cases hr
   cases w
   · exact NzS.of_eq rfl rfl rfl
   · exact (nz_wakeServer s).trans (NzS.of_eq rfl rfl rfl)
